@@ -392,7 +392,8 @@ def check_main(pid, tier, base_seed, runs=None, jobs=None, budget_s=None):
         "distinct_op_bigrams": len(aj["bigrams"]),
         "ambiguous_skipped": aj["ambiguous_skipped"],
         "components": profile.COMPONENTS,
-        "known_findings_hit": [{"site": e["site"], "count": n} for e, n, _ in known_hits],
+        "known_findings_hit": [{"site": e["site"], "count": n} for e, n, _ in known_hits] +
+                              [{"site": kk, "count": n} for kk, n in sorted(aj.get("known", {}).items())],
         "workers": jobs,
         "exhaustive": False,
     }
@@ -416,8 +417,17 @@ def check_main(pid, tier, base_seed, runs=None, jobs=None, budget_s=None):
         cov["distinct_abstract_states"], json.dumps(aj["faults"], sort_keys=True)))
     if stuck:
         print("WARNING probes stuck at zero: %s" % ",".join(stuck))
+    soft = dict(aj.get("known", {}))
+    printed = set()
     for e, n, first in known_hits:
-        print("KNOWN-FINDING: property=%s %s (hit %d times; e.g. seed=%d)" % (pid, e.get("what", e["site"]), n, first["seed"]))
+        kk = "/".join((e["property"], e["oracle"], e["site"]))
+        n += soft.pop(kk, 0)
+        printed.add(kk)
+        print("KNOWN-FINDING: property=%s %s [%s@%s] (hit %d times; e.g. seed=%d)" % (pid, e.get("what", e["site"]), e["oracle"], e["site"], n, first["seed"]))
+    for kk, n in sorted(soft.items()):
+        pr, orc, site = kk.split("/", 2)
+        e = match_known(known, {"property": pr, "oracle": orc, "site": site}) or {"site": site}
+        print("KNOWN-FINDING: property=%s %s [%s@%s] (hit %d times)" % (pid, e.get("what", site), orc, site, n))
     rc = 0
     for key, rel, n in new_violations:
         if rel is None:
